@@ -717,6 +717,10 @@ class PropertyFilter:
         subindexes: SubIndexDict = create_subindexes(indexes, myindex)
         if not self.children and not self.time_range:
             return bool(indexes[myindex])
+        if myindex in indexes and not indexes[myindex]:
+            # Like match(): without the property nothing below can match,
+            # not even an is-not-defined param-filter
+            return False
 
         if self.time_range is not None and not self.time_range.match_indexes(
             subindexes, tzify
@@ -785,7 +789,8 @@ class ParameterFilter:
 
         subindexes = create_subindexes(indexes, myindex)
 
-        if not subindexes:
+        if not subindexes.get(None):
+            # no value for this parameter
             return False
 
         for child in self.children:
